@@ -10,7 +10,7 @@ ap.add_argument('--also', default='', help='comma list of extra properties to ru
 ap.add_argument('--out', default='mutrun_results.json')
 ap.add_argument('seeds', nargs='*')
 a = ap.parse_args()
-seeds = [os.path.abspath(x) for x in a.seeds] or sorted(glob.glob(os.path.join(VERIF, 'seeded', '*')))
+seeds = [os.path.abspath(x) for x in a.seeds] or sorted(x for x in glob.glob(os.path.join(VERIF, 'seeded', '*')) if os.path.isdir(x))
 resf = os.path.join(VERIF, 'work', a.out)
 os.makedirs(os.path.dirname(resf), exist_ok=True)
 results = json.load(open(resf)) if os.path.exists(resf) else {}
